@@ -174,6 +174,17 @@ func c09Check(c *mon.Ctx, g *logenc.Group) {
 	}
 	// file summary mirrors the selected PATH (identified by its inode; when several PATH records
 	// share the inode - a rename - it is enough that one of them is mirrored completely)
+	if ev.File != nil && ev.File.Inode == "" {
+		// a file object was selected although the summary names no inode: every generated PATH record has one
+		for _, l := range g.Lines {
+			if m, _ := auparse.ParseLogLine(l); m != nil && m.RecordType == auparse.AUDIT_PATH {
+				if d, err := m.Data(); err == nil && d["inode"] != "" {
+					c.Violation("file-summary-empty", fmt.Sprintf("the event has a file summary without an inode (%+v) although its PATH records carry inode numbers (e.g. %s)", *ev.File, d["inode"]), g)
+					return
+				}
+			}
+		}
+	}
 	if ev.File != nil && ev.File.Inode != "" {
 		var cands []map[string]string
 		for _, l := range g.Lines {
